@@ -150,3 +150,38 @@ def abnormal(rec):
     if rec.get("outcome") == "multi":
         return any(abnormal(r) for r in rec.get("records", []))
     return False
+
+
+def glued_rule_trigger(files):
+    """Trigger predicate of the known findings about blanks inside a rule's literal run (KF-C07-glued-token and
+    its C02/C08 faces): some instruction line, with blanks removed, starts with the whole leading literal run
+    (>= 2 characters) of some rule, although the line itself has a blank inside that run - e.g. `st x` against
+    rule `stx`, `call q` against `callq`, `h a l t` against `halt`."""
+    import re
+    leads = set()
+    texts = []
+    for name, text in (files.items() if isinstance(files, dict) else files):
+        if isinstance(text, bytes):
+            text = text.decode("utf8", "replace")
+        if not isinstance(text, str):
+            continue
+        texts.append(text)
+        for m in re.finditer(r"#(?:sub)?ruledef[^{]*\{(.*?)\n\}", text, re.S):
+            for line in m.group(1).split("\n"):
+                if "=>" not in line:
+                    continue
+                lead = re.match(r"[^\s{]*", line.split("=>")[0].strip()).group(0).lower()
+                if len(lead) >= 2:
+                    leads.add(lead)
+    if not leads:
+        return False
+    for text in texts:
+        for line in text.split("\n"):
+            s = line.split(";")[0].strip().lower()
+            if not s or s.startswith("#") or "=>" in s:
+                continue
+            glued = re.sub(r"[ \t]+", "", s)
+            for p in leads:
+                if glued.startswith(p) and not s.startswith(p):
+                    return True
+    return False
